@@ -371,37 +371,58 @@ def zeroFields : List (List Nat) := List.replicate 10 (List.replicate 20 0)
 def tripleWords (t : Triple) : List Nat := [t.1, t.2.1, t.2.2]
 
 /-- `np.concatenate([points, scalars], axis=1)` row `i` -/
+def lookupKeys {β} (keys : List Name) (d : List (Name × β)) : Except Err (List β) :=
+  keys.mapM (fun k => match d.lookup k with | some v => .ok v | none => .error .value)   -- KeyError (not generated)
+
 def itemRows (keys : List Name) (it : Item) : Except Err (List (List Nat)) :=
   if it.dpp.any (fun d => d.2.length != it.pts.length) then .error .data    -- 'Missing scalars for some points!'
-  else do
-    let cols ← keys.mapM (fun k => match it.dpp.lookup k with | some v => .ok v | none => .error .value)
-    pure (it.pts.zipIdx.map (fun (p, i) => tripleWords p ++ (cols.map (fun c => c.getD i [])).flatten))
+  else
+    match lookupKeys keys it.dpp with
+    | .error e => .error e
+    | .ok cols => .ok (it.pts.zipIdx.map (fun x => tripleWords x.1 ++ (cols.map (fun c => c.getD x.2 [])).flatten))
 
-def itemProps (keys : List Name) (it : Item) : Except Err (List Nat) := do
-  let vs ← keys.mapM (fun k => match it.dps.lookup k with | some v => .ok v | none => .error .value)
-  pure vs.flatten
+def itemProps (keys : List Name) (it : Item) : Except Err (List Nat) :=
+  match lookupKeys keys it.dps with
+  | .error e => .error e
+  | .ok vs => .ok vs.flatten
+
+/-- one record of the `for t in tractogram:` loop -/
+def itemRec (skeys pkeys : List Name) (it : Item) : Except Err TrkRec :=
+  match itemRows skeys it with
+  | .error e => .error e
+  | .ok rows =>
+      match itemProps pkeys it with
+      | .error e => .error e
+      | .ok props => .ok ⟨rows, props⟩
+
+/-- the header counts computed after the loop (trk.py:526-541) -/
+def trkHeaderCounts (nItems : Nat) (recs : List TrkRec) (scalarFields propFields : List (List Nat)) :
+    Except Err TrkCounts :=
+  let nbPoints := (recs.map (·.rows.length)).sum
+  let nbScalars := (recs.map (fun r => (r.rows.map (fun row => row.length - 3)).sum)).sum
+  let nbProps := (recs.map (·.props.length)).sum
+  if nbPoints == 0 then .error .zerodiv
+  else if nbScalars % nbPoints != 0 then .error .data
+  else if nbProps % nItems != 0 then .error .data
+  else .ok ⟨nItems, nbScalars / nbPoints, nbProps / nItems, scalarFields, propFields⟩
 
 /-- `TrkFile.save` after the affine has been applied: counts, name tables and the data words -/
 def trkSaveItems (items : List Item) : Except Err (TrkCounts × List Nat) :=
   match items with
   | [] => .ok (⟨0, 0, 0, zeroFields, zeroFields⟩, [])
-  | first :: _ => do
-      let propFields ← nameTable (first.dps.map (fun d => (d.1, d.2.length)))
-      let scalarFields ← nameTable (first.dpp.map (fun d => (d.1, (d.2.headD []).length)))
-      let skeys := first.dpp.map (·.1)
-      let pkeys := first.dps.map (·.1)
-      let recs ← items.mapM (fun it => do
-        let rows ← itemRows skeys it
-        let props ← itemProps pkeys it
-        pure (⟨rows, props⟩ : TrkRec))
-      let nbPoints := (recs.map (·.rows.length)).sum
-      let nbScalars := (recs.map (fun r => (r.rows.map (fun row => row.length - 3)).sum)).sum
-      let nbProps := (recs.map (·.props.length)).sum
-      if nbPoints == 0 then .error .zerodiv
-      else if nbScalars % nbPoints != 0 then .error .data
-      else if nbProps % items.length != 0 then .error .data
-      else pure (⟨items.length, nbScalars / nbPoints, nbProps / items.length, scalarFields, propFields⟩,
-                 trkDataWords recs)
+  | first :: _ =>
+      match nameTable (first.dps.map (fun d => (d.1, d.2.length))) with
+      | .error e => .error e
+      | .ok propFields =>
+          match nameTable (first.dpp.map (fun d => (d.1, (d.2.headD []).length))) with
+          | .error e => .error e
+          | .ok scalarFields =>
+              match items.mapM (itemRec (first.dpp.map (·.1)) (first.dps.map (·.1))) with
+              | .error e => .error e
+              | .ok recs =>
+                  match trkHeaderCounts items.length recs scalarFields propFields with
+                  | .error e => .error e
+                  | .ok h => .ok (h, trkDataWords recs)
 
 def rowTriple (row : List Nat) : Triple := (row.getD 0 0, row.getD 1 0, row.getD 2 0)
 
@@ -412,13 +433,16 @@ def recItem (dppS dpsS : List (Name × Nat × Nat)) (r : TrkRec) : Item :=
    dpsS.map (fun s => (s.1, pySlice r.props s.2.1 s.2.2))⟩
 
 /-- `TrkFile.load` before the affine is applied -/
-def trkLoadItems (h : TrkCounts) (words : List Nat) : Except Err (List Item) := do
-  let dppS ← nameSlices h.ns h.scalarFields scalarsName
-  let dpsS ← nameSlices h.np h.propFields propertiesName
-  let run := trkRead h.ns h.np h.nStreams 0 words
-  match run.err with
-  | some e => .error e
-  | none => pure (run.items.map (fun x => recItem dppS dpsS x.1))
+def trkLoadItems (h : TrkCounts) (words : List Nat) : Except Err (List Item) :=
+  match nameSlices h.ns h.scalarFields scalarsName with
+  | .error e => .error e
+  | .ok dppS =>
+      match nameSlices h.np h.propFields propertiesName with
+      | .error e => .error e
+      | .ok dpsS =>
+          match (trkRead h.ns h.np h.nStreams 0 words).err with
+          | some e => .error e
+          | none => .ok ((trkRead h.ns h.np h.nStreams 0 words).items.map (fun x => recItem dppS dpsS x.1))
 
 /-! ## Affines over `Rat` -/
 
@@ -642,5 +666,113 @@ def lazyItems (A : Aff) (raw : List Item) : Option (List Item) :=
 
 /-- the ORIGINAL `LazyTractogram.data`: `return self._data()` — the pending affine is ignored -/
 def lazyItemsOrig (_A : Aff) (raw : List Item) : Option (List Item) := some raw
+
+/-! ## A TCK file at byte level (tck.py:185-238 `save`, 275-287 `_write_header`, 396 + 432 reader)
+
+  `out` is the header text up to and excluding the `file` entry (magic, count, datatype, extra
+  fields — any bytes).  `save` writes `out`, then `\nfile: . <N>\nEND\n`, then the data triples as
+  little-endian float32.  The reader takes `N = int(hdr['file'].split()[1])`, seeks to byte `N` and
+  decodes whatever is there in 12-byte groups.  (The line-oriented header parser itself is not
+  modelled: `tckAnnounced` reads the digits that follow the `file: . ` text.) -/
+
+def encWord (w : Nat) : List Nat := [w % 256, w / 256 % 256, w / 65536 % 256, w / 16777216 % 256]
+def decWord (a b c d : Nat) : Nat := a + 256 * b + 65536 * c + 16777216 * d
+def encTriple (t : Triple) : List Nat := encWord t.1 ++ encWord t.2.1 ++ encWord t.2.2
+def encTriples (l : List Triple) : List Nat := (l.map encTriple).flatten
+
+/-- `np.frombuffer(buff, '<f4').reshape(-1, 3)` of everything from the data offset on: the whole
+    triples and the number of left-over bytes -/
+def decTriples : List Nat → List Triple × Nat
+  | a0 :: a1 :: a2 :: a3 :: b0 :: b1 :: b2 :: b3 :: c0 :: c1 :: c2 :: c3 :: rest =>
+      let r := decTriples rest
+      ((decWord a0 a1 a2 a3, decWord b0 b1 b2 b3, decWord c0 c1 c2 c3) :: r.1, r.2)
+  | l => ([], l.length)
+
+def tckFilePrefix : List Nat := [10, 102, 105, 108, 101, 58, 32, 46, 32]   -- b'\nfile: . '
+def tckFileSuffix : List Nat := [10, 69, 78, 68, 10]                       -- b'\nEND\n'
+
+/-- the bytes `TckFile.save` leaves in the file for header text `out` and streamlines `sls` -/
+def tckWriteFile (out : List Nat) (sls : List (List Triple)) : List Nat :=
+  out ++ tckFilePrefix ++ decRepr (tckHdrOffset out.length) ++ tckFileSuffix ++ encTriples (tckData sls)
+
+/-- the data offset the header announces: `int()` of the digits after `file: . ` -/
+def tckAnnounced (lenOut : Nat) (bytes : List Nat) : Option Nat :=
+  parseDec ((bytes.drop (lenOut + tckFilePrefix.length)).takeWhile isDigit)
+
+/-- `TckFile._read(fileobj, header)` on the bytes of a file whose header announces `announced` -/
+def tckReadFile (c announced : Nat) (bytes : List Nat) : GenRun (List Triple) :=
+  let r := decTriples (bytes.drop announced)
+  tckRead c r.2 announced r.1
+
+/-! ## Eager versus lazy loading (tck.py:139-158, trk.py:356-397, array_sequence.py, tractogram.py)
+
+  EAGER: the reader generator is consumed into `ArraySequence`s — all rows concatenated in one
+  buffer plus the length of every streamline; column slices (`scalars[:, slice_]`) and the affine
+  (`apply_affine(affine, streamlines._data)`) act on the concatenated buffer; streamline `i` is cut
+  out again by the lengths.  Per-streamline properties become one 2-D array (`np.asarray`).
+  LAZY: nothing is stored; `.streamlines` applies the affine to every yielded item, and
+  `data_per_point[k]` / `data_per_streamline[k]` are one generator per key `k` of the FIRST item,
+  each running the reader again and picking `item.data_for_points[k]`. -/
+
+structure ArrSeq (α : Type) where
+  data : List α
+  lengths : List Nat
+
+/-- `ArraySequence(iterable)` -/
+def ArrSeq.ofLists {α} (l : List (List α)) : ArrSeq α := ⟨l.flatten, l.map List.length⟩
+
+def splitLens {α} : List Nat → List α → List (List α)
+  | [], _ => []
+  | n :: ns, d => d.take n :: splitLens ns (d.drop n)
+
+/-- `[seq[i] for i in range(len(seq))]` -/
+def ArrSeq.toLists {α} (a : ArrSeq α) : List (List α) := splitLens a.lengths a.data
+
+/-- a row-wise operation on the common buffer (`_data[:, slice]`) -/
+def ArrSeq.mapRows {α β} (f : α → β) (a : ArrSeq α) : ArrSeq β := ⟨a.data.map f, a.lengths⟩
+
+/-- a row-wise operation that is defined only where the result is representable (`apply_affine`) -/
+def ArrSeq.mapRowsM {α β} (f : α → Option β) (a : ArrSeq α) : Option (ArrSeq β) :=
+  (a.data.mapM f).map (fun d => ⟨d, a.lengths⟩)
+
+/-- a tractogram as the user sees it: streamlines, and name ↦ one entry per streamline -/
+structure Tracto where
+  streamlines : List (List Triple)
+  dpp : List (Name × List (List (List Nat)))
+  dps : List (Name × List (List Nat))
+  deriving Repr, DecidableEq
+
+/-- eager `TckFile.load`: `Tractogram(ArraySequence(cls._read(...)))`, identity affine -/
+def tckEager (run : GenRun (List Triple)) : Except Err (List (List Triple)) :=
+  match run.err with
+  | some e => .error e
+  | none => .ok (ArrSeq.ofLists (run.items.map (·.1))).toLists
+
+/-- lazy `TckFile.load`: the streamlines generator, run to its end -/
+def tckLazy (run : GenRun (List Triple)) : Except Err (List (List Triple)) :=
+  match run.err with
+  | some e => .error e
+  | none => .ok (run.items.map (·.1))
+
+/-- eager `TrkFile.load` for the records `recs` the reader yields, name-table slices `dppS`/`dpsS`
+    and the trackvis→RAS+mm affine `A` -/
+def trkEager (A : Aff) (dppS dpsS : List (Name × Nat × Nat)) (recs : List TrkRec) : Option Tracto :=
+  let pts := ArrSeq.ofLists (recs.map (fun r => r.rows.map rowTriple))
+  let scal := ArrSeq.ofLists (recs.map (fun r => r.rows.map (fun row => row.drop 3)))
+  let props := recs.map (·.props)
+  (pts.mapRowsM (applyAffBits A)).map (fun p =>
+    ⟨p.toLists,
+     dppS.map (fun s => (s.1, (scal.mapRows (fun row => pySlice row s.2.1 s.2.2)).toLists)),
+     dpsS.map (fun s => (s.1, props.map (fun pr => pySlice pr s.2.1 s.2.2)))⟩)
+
+/-- lazy `TrkFile.load` seen through `.streamlines`, `.data_per_point`, `.data_per_streamline` -/
+def trkLazy (A : Aff) (dppS dpsS : List (Name × Nat × Nat)) (recs : List TrkRec) : Option Tracto :=
+  let items : List Item := recs.map (recItem dppS dpsS)
+  let keysP : List Name := match items with | [] => [] | it :: _ => it.dpp.map (fun d => d.1)
+  let keysS : List Name := match items with | [] => [] | it :: _ => it.dps.map (fun d => d.1)
+  (items.mapM (fun (it : Item) => it.pts.mapM (applyAffBits A))).map (fun sl =>
+    ⟨sl,
+     keysP.map (fun k => (k, items.map (fun (it : Item) => (it.dpp.lookup k).getD []))),
+     keysS.map (fun k => (k, items.map (fun (it : Item) => (it.dps.lookup k).getD [])))⟩)
 
 end Nb.C16
